@@ -139,7 +139,9 @@ func genBatch(rt *rapid.T) *Batch {
 		for i := 0; i < n; i++ {
 			rp := genReq("r")
 			rp.StartMs = rapid.SampledFrom([]int{0, 0, 0, 1, 3, 10, 30, 80}).Draw(rt, "startMs")
-			rp.Oneway = rapid.IntRange(0, 11).Draw(rt, "oneway") == 0
+			// one-way requests only over the multiplexed pool: the ping-pong pool is made for strict request/response
+			// protocols (its NewStream carries a "FIXME one way"), boltpp is a harness-made protocol
+			rp.Oneway = b.Proto == "bolt" && rapid.IntRange(0, 11).Draw(rt, "oneway") == 0
 			cp := &b.Conns[i%nc]
 			cp.Reqs = append(cp.Reqs, rp)
 		}
@@ -418,6 +420,15 @@ func (r *rig) idleProbe(n int, desc func() string) bool {
 		return true
 	}
 	for i := 0; i < n; i++ {
+		if r.su.Proto == "tcp" && r.su.Thr[thrConn] != 0 { // sessions of waiting clients legitimately fill the limit
+			var live int64
+			for _, u := range r.ups {
+				live += int64(u.Live())
+			}
+			if live >= int64(r.su.Thr[thrConn]) {
+				return true
+			}
+		}
 		before := r.info.Stats().UpstreamRequestPendingOverflow.Count()
 		tok := fmt.Sprintf("probe%d", i)
 		o := r.probeOnce(tok)
